@@ -263,6 +263,11 @@ func (r *Reach) eval(v ssa.Value) Abs {
 			}
 			return Unknown
 		}
+		if v.Op == token.MUL {
+			if a, ok := v.X.(*ssa.Alloc); ok {
+				return r.evalCell(a, v)
+			}
+		}
 		return Unknown
 	case *ssa.Phi:
 		b := v.Block()
@@ -374,6 +379,49 @@ func (r *Reach) EvalAt(v ssa.Value, at ssa.Instruction) Abs {
 		return Unknown
 	}
 	return a
+}
+
+// evalCell evaluates a load of a non-escaping local cell (e.g. the result cell that go/ssa
+// introduces in functions with defer): the nearest preceding store in the same block, else the
+// meet of all stores.
+func (r *Reach) evalCell(a *ssa.Alloc, load *ssa.UnOp) Abs {
+	var stores []*ssa.Store
+	for _, ref := range *a.Referrers() {
+		switch x := ref.(type) {
+		case *ssa.Store:
+			if x.Addr != a {
+				return Unknown
+			}
+			stores = append(stores, x)
+		case *ssa.UnOp, *ssa.DebugRef:
+		default:
+			return Unknown // escapes (closure, call argument)
+		}
+	}
+	b := load.Block()
+	var last *ssa.Store
+	for _, in := range b.Instrs {
+		if in == ssa.Instruction(load) {
+			break
+		}
+		if st, ok := in.(*ssa.Store); ok && st.Addr == a {
+			last = st
+		}
+	}
+	if last != nil {
+		return r.Eval(last.Val)
+	}
+	res := Bottom
+	for _, st := range stores {
+		if !r.BlockReached(st.Block()) {
+			continue
+		}
+		res = meet(res, r.Eval(st.Val))
+	}
+	if res == Bottom {
+		return Unknown
+	}
+	return res
 }
 
 func (r *Reach) nilnessOnly(a Abs) Abs {
